@@ -49,5 +49,16 @@ C05_Returns == ~ENABLED Next => \A c \in Clients : (S.pc[c] = "call" /\ HasOp(c)
 \* temporal (FairSpec): every client finishes its script when the script leaves the worker running
 C03_Live == <>[](AllDone)
 
+\* Behaviours the gate scheduler can reproduce exactly: a process standing at an internal label (no hook in the code there) moves on
+\* before anybody else does.  Used as ACTION_CONSTRAINT when a counterexample is to be replayed on the real code (tools/cex2corpus.py).
+AutoLabels == {"i.wuf", "i.pause", "i.resume", "i.stop.fin", "i.stop", "i.stop2", "i.stopall", "i.restart", "i.rs.nodes", "i.rs2", "i.start", "i.tune.loop",
+               "i.purge.loop", "i.reap.next", "i.loop", "i.loop.lock", "i.disp.lock", "i.start.2", "i.start.notify", "i.addall"}
+Moved(p) == <<S'.pc[p], S'.loc[p], S'.stk[p]>> # <<S.pc[p], S.loc[p], S.stk[p]>>
+\* (the guards of the steps that leave an internal label, spelled out: cheaper than ENABLED)
+AutoReady(p) == /\ S.pc[p] \in AutoLabels
+                /\ S.pc[p] \in {"i.stop", "i.restart"} => S.lc = "none"
+                /\ S.pc[p] \in {"i.wuf", "i.loop.lock", "i.disp.lock", "i.start.notify"} => MxFree
+                /\ S.pc[p] = "i.start.2" => (Expiry => MxFree)
+GateLike == (\E p \in Procs : AutoReady(p)) => (\E p \in Procs : S.pc[p] \in AutoLabels /\ Moved(p))
 View == S
 =============================================================================
